@@ -1,19 +1,98 @@
-(* C14/C15: number-field elements (src/algebraic.rs), orders, multiplication tables.
-   Same operations as harness/src/ops/algorder.rs. *)
+(* C14/C15: number-field elements (src/algebraic.rs), multiplication tables (src/mult_table.rs),
+   orders (src/order.rs).  Same operations as harness/src/ops/algorder.rs.
+
+   An order argument is a term naming the constructor path (the field of [Order] is private):
+     [basis M]      Order::from_basis(M)
+     [sg f e]       Order::singly_gen(&Algebraic { min_poly: f, expr: e })
+     [sgnew f]      Order::singly_gen(&Algebraic::new(f))
+     [triv f]       order::trivial_order_monic(&Algebraic::new(f))
+     [nonmonic f]   order::non_monic_initial_order(&Algebraic::new(f))
+   Operations on an order built this way answer [basis result] (the stored basis first), so that
+   the oracles can work from the basis the implementation really used. *)
 open Conv
 open Registry
 open Poly
 open Algebraic
+open Base
 
 let zp t = from_raw opsZ (ints t)
 let qp t = from_raw opsQc (rats t)
+
+let ord (t : Term.t) =
+  match list_ t with
+  | [Term.Id "basis"; m] -> Order.from_basis (rmat m)
+  | [Term.Id "sg"; f; e] -> Order.singly_gen (zp f) (qp e)
+  | [Term.Id "sgnew"; f] -> Order.singly_gen (zp f) (alg_new (zp f))
+  | [Term.Id "triv"; f] -> Order.trivial_order_monic (zp f)
+  | [Term.Id "nonmonic"; f] -> Order.non_monic_initial_order (zp f)
+  | _ -> bad "order constructor" t
+
+let table_ t = List.map imat (list_ t)
+let ttable t = tl (List.map timat t)
+let tpair_inv (ans, norm) = tl [tints ans; ti norm]
+let tinvdiff (l, h) = tl [ti l; timat h]
+
+(* [basis result] *)
+let with_basis enc b r = out (fun v -> tl [trmat b; enc v]) r
+let on_ord t k = match ord t with
+  | Done b -> k b
+  | Panic p -> Panic_ (tag_name p)
+  | OutOfFuel -> Fuel_
+(* order, then its multiplication table w.r.t. f, then an operation on the table *)
+let on_table a enc k =
+  on_ord (arg a 0) (fun b ->
+    with_basis enc b (bind (Order.get_mult_table b (zp (arg a 1))) k))
+
 let () =
   (* alg_* f a b : elements given by their expr polynomial (rationals), f the minimal polynomial *)
+  register "alg_new" (fun a -> pure (trats (alg_new (zp (arg a 0)))));
   register "alg_add" (fun a -> pure (trats (alg_add (qp (arg a 1)) (qp (arg a 2)))));
   register "alg_sub" (fun a -> pure (trats (alg_sub (qp (arg a 1)) (qp (arg a 2)))));
   register "alg_mul" (fun a -> out trats (alg_mul (zp (arg a 0)) (qp (arg a 1)) (qp (arg a 2))));
   register "alg_pow" (fun a -> out trats (alg_pow (zp (arg a 0)) (qp (arg a 1)) (int_ (arg a 2))));
   register "alg_pow_u64" (fun a -> out trats (alg_pow (zp (arg a 0)) (qp (arg a 1)) (int_ (arg a 2))));
   register "alg_theta_pow" (fun a -> out trats (alg_pow (zp (arg a 0)) (alg_new (zp (arg a 0))) (int_ (arg a 1))));
-  register "alg_as_coefs" (fun a -> out trats (as_coefs Base.Checked (zp (arg a 0)) (qp (arg a 1))))
+  register "alg_as_coefs" (fun a -> out trats (as_coefs Base.Checked (zp (arg a 0)) (qp (arg a 1))));
+  (* alg_law f a b c s t : both sides of the ring laws and of a^(s+t) = a^s * a^t, as pairs *)
+  register "alg_law" (fun a ->
+    let f = zp (arg a 0) and x = qp (arg a 1) and y = qp (arg a 2) and z = qp (arg a 3) in
+    let s = int_ (arg a 4) and t = int_ (arg a 5) in
+    let pair u v = tl [trats u; trats v] in
+    let ( >>= ) = bind in
+    out (fun l -> tl l)
+      (alg_mul f x y >>= fun xy -> alg_mul f xy z >>= fun xy_z ->
+       alg_mul f y z >>= fun yz -> alg_mul f x yz >>= fun x_yz ->
+       alg_mul f x (alg_add y z) >>= fun x_ypz -> alg_mul f x z >>= fun xz ->
+       alg_mul f y x >>= fun yx ->
+       alg_pow f x (BinInt.Z.add s t) >>= fun pst -> alg_pow f x s >>= fun ps ->
+       alg_pow f x t >>= fun pt -> alg_mul f ps pt >>= fun pspt ->
+       Done [pair xy_z x_yz; pair x_ypz (alg_add xy xz); pair xy yx; pair pst pspt]));
+  (* mt_* T ... : operations on an explicit table *)
+  register "mt_deg" (fun a -> pure (tnat (MultTable.mt_deg (table_ (arg a 0)))));
+  register "mt_mul" (fun a -> out tints (MultTable.mt_mul (mode_ (arg a 3)) (table_ (arg a 0)) (ints (arg a 1)) (ints (arg a 2))));
+  register "mt_trace" (fun a -> out ti (MultTable.mt_trace (table_ (arg a 0)) (ints (arg a 1))));
+  register "mt_norm" (fun a -> out ti (MultTable.mt_norm (table_ (arg a 0)) (ints (arg a 1))));
+  register "mt_inv" (fun a -> out tpair_inv (MultTable.mt_inv (table_ (arg a 0)) (ints (arg a 1))));
+  register "mt_inv_diff" (fun a -> out tinvdiff (MultTable.mt_inv_diff (table_ (arg a 0))));
+  (* ord_* O ... *)
+  register "ord_basis" (fun a -> on_ord (arg a 0) (fun b -> pure (trmat b)));
+  register "ord_deg" (fun a -> on_ord (arg a 0) (fun b -> pure (tnat (Order.order_deg b))));
+  register "ord_eq" (fun a -> on_ord (arg a 0) (fun x -> on_ord (arg a 1) (fun y -> pure (tbool (Order.order_eqb x y)))));
+  register "ord_index" (fun a -> on_ord (arg a 0) (fun x -> on_ord (arg a 1) (fun y -> out ti (Order.order_index x y))));
+  register "ord_union" (fun a -> on_ord (arg a 0) (fun x -> on_ord (arg a 1) (fun y -> out trmat (Order.order_union x y))));
+  (* ord_disc discf O f : discf = the implementation's discriminant(f) (taken from its answer) *)
+  register "ord_disc" (fun a -> on_ord (arg a 1) (fun b ->
+    out ti (Order.order_discriminant Base.Checked (int_ (arg a 0)) b (zp (arg a 2)))));
+  register "ord_mult_table" (fun a -> on_ord (arg a 0) (fun b ->
+    with_basis ttable b (Order.get_mult_table b (zp (arg a 1)))));
+  register "ord_to_z_basis" (fun a -> on_ord (arg a 0) (fun b ->
+    with_basis trats b (Order.to_z_basis b (qp (arg a 2)))));
+  register "ord_to_z_basis_int" (fun a -> on_ord (arg a 0) (fun b ->
+    with_basis tints b (Order.to_z_basis_int b (qp (arg a 2)))));
+  (* omt_* O f ... : table of the order, then the table operation *)
+  register "omt_mul" (fun a -> on_table a tints (fun t -> MultTable.mt_mul Base.Checked t (ints (arg a 2)) (ints (arg a 3))));
+  register "omt_trace" (fun a -> on_table a ti (fun t -> MultTable.mt_trace t (ints (arg a 2))));
+  register "omt_norm" (fun a -> on_table a ti (fun t -> MultTable.mt_norm t (ints (arg a 2))));
+  register "omt_inv" (fun a -> on_table a tpair_inv (fun t -> MultTable.mt_inv t (ints (arg a 2))));
+  register "omt_inv_diff" (fun a -> on_table a tinvdiff (fun t -> MultTable.mt_inv_diff t))
 let init () = ()
